@@ -283,6 +283,9 @@ def run(chk, replay=None):
     parts = [ns[i::6] for i in range(6)]
     jobs = [("q120 NTT probes n in %s" % p, drive, (p, quick)) for p in parts] + [("NTT120 module round trips", drive_module, (quick,))] + \
            [("inverse transform first in a fresh process (%s level)" % w, drive_inverse_first, (o,)) for o, w in ((0, "kernel"), (1, "module"))]
+    if not quick:       # (4.3 GB of memory)
+        from props import c08
+        jobs += [("NTT120 vec_znx_dft: zero extension of more than 4 GiB", c08.drive_giant_tail, ())]
     res = isolated_many(chk, jobs, timeout=2400, nproc=7)
     events = [ev for d in res if d for ev in d["events"]]
     clean = [{k: v for k, v in ev.items() if not k.startswith("_")} for ev in events]
